@@ -289,7 +289,9 @@ def containment_paths(maxdepth=8):
 
 
 # ------------------------------------------------------------------ representatives
-STR_REPS = ["abc", "two words", "", "ünï", "7", "a#b", "it's", "x.y/z", "1e3x", "odd\x0c\x1c\x85\u2028chars\tin it", "END", "layer", "multi \nline\t\n\nvalue "]
+STR_REPS = ["abc", "two words", "", "ünï", "7", "a#b", "it's", "x.y/z", "1e3x", "odd\x0c\x1c\x85\u2028chars\tin it", "END", "layer", "multi \nline\t\n\nvalue ",
+            # not in Unicode normal form C (decomposed accent, ANGSTROM SIGN, OHM SIGN); a continuation line that looks like a comment line
+            "cafe\u0301 \u212b\u2126", "two\n  # hash line\nlines"]
 EXPR_REPS = [
     ("([a] = 1)", "( [a] = 1 )"),
     ('("[a]" = "x" AND [b] > 2)', '( ( "[a]" = "x" ) AND ( [b] > 2 ) )'),
